@@ -91,6 +91,7 @@ class Policy:
         self.rules = rules or []
         self.counts: dict[str, int] = {}
         self.applied: list = []
+        self.stream_log: list = []  # (flow id, "request"|"response", chunk in, chunk(s) out) per stream-callable call
         self.by_hook: dict[str, list] = {}
         for r in self.rules:
             self.by_hook.setdefault(r["hook"], []).append(r)
@@ -136,7 +137,16 @@ class Policy:
         elif act == "stream":
             which = r.get("which", "request" if name in ("requestheaders",) else "response")
             fn = r.get("fn")
-            val = STREAM_FNS[fn] if fn else True
+            val = True
+            if fn:
+                base = STREAM_FNS[fn]
+                log = self.stream_log
+
+                def val(d, base=base, fid=f.id, which=which):
+                    out = base(d)
+                    # what mitmproxy handed to the callable and what it got back, in call order
+                    log.append((fid, which, bytes(d), out if isinstance(out, bytes) else [bytes(x) for x in out]))
+                    return out
             m = f.request if which == "request" else f.response
             if m is not None:
                 m.stream = val
